@@ -34,6 +34,7 @@ class ExprMixin:
         try:
             self.store.assume_ge0(d)
             self.store.assume_ge0(-d)
+            self.store.__dict__.setdefault('definitional', []).extend([d, -d])
         except Exception:
             pass
         memo[key] = (Lin.sym(q), Lin.sym(r))
@@ -105,6 +106,10 @@ class ExprMixin:
                 v = self.eval_in_module(mod, expr)
                 if isinstance(v, (DictV, ListV, FileV, ObjV)):
                     v.tags = frozenset(v.tags) | {'global'}
+                elif isinstance(v, (IterV, GenCallV)) and getattr(v, 'desc', None) not in ('range',) and \
+                        not isinstance(getattr(v, 'src', None), RangeV):
+                    # a module-level iterator (cycle(...), iter(...), a generator): consuming it changes state shared by all calls
+                    v.shared_iterator = True
             self.modcache[key] = v
             return v
         return UnkV(f'binding {kind}')
